@@ -317,11 +317,12 @@ private:
                 std::integral_constant<bool, is_bit_aligned_t::value> // TODO: Simplify after MPL removal
             > neg;
 
-        detail::swap_half_bytes
+        // pbm stores the leftmost pixel in the most significant bit, gil's bit aligned pixels start at the least significant one
+        detail::mirror_bits
             <
                 typename rh_t::buffer_t,
                 std::integral_constant<bool, is_bit_aligned_t::value> // TODO: Simplify after MPL removal
-            > swhb;
+            > mirror( true );
 
         //Skip scanlines if necessary.
         for( y_t y = 0; y < this->_settings._top_left.y; ++y )
@@ -338,7 +339,7 @@ private:
                         );
 
             neg( rh.buffer() );
-            swhb( rh.buffer() );
+            mirror( rh.buffer() );
 
             this->_cc_policy.read( beg
                                  , end
